@@ -532,6 +532,10 @@ TRANSPARENT = (
 
 
 def is_transparent(callee, resolved):
+    r = norm(resolved) if resolved else None
+    if r and (r.startswith("oq3_") or r.startswith("<oq3_")):
+        # a function of the repository is looked through only if it is a derived Clone
+        return r.endswith(" as std::clone::Clone>::clone")
     for c in (callee, resolved):
         if not c:
             continue
